@@ -514,6 +514,12 @@ def is_instance(value: Any, type_: Any) -> bool:
         if not args:
             return True
 
+        # Mappings have key and value types
+        if len(args) == 2 and isinstance(value, Mapping):
+            return all(
+                is_instance(k, args[0]) and is_instance(v, args[1]) for k, v in value.items()
+            )
+
         if len(args) > 1:
             raise RuntimeError(f"Unexpected collection type {type_}. Please, report a bug.")
 
